@@ -356,10 +356,8 @@ func runCase(c caseSpec) caseResult {
 				switch {
 				case r.class == "ok":
 					hx := "?"
-					if r.serial >= 1 && r.serial <= len(srv.frames) {
-						// frames is only appended by the server goroutine before the send that made this
-						// result possible; reading the element is ordered by the connection
-						hx = hlib.Hex(srv.frames[r.serial-1].body)
+					if f, ok := srv.frame(r.serial); ok {
+						hx = hlib.Hex(f.body)
 					}
 					op, ans = fmt.Sprintf("R %d ok %s", i, hx), "delivered "+hx
 				case r.class == "sent":
@@ -477,11 +475,11 @@ func runCase(c caseSpec) caseResult {
 				res.fails = append(res.fails, ioFail{"c14-response-without-request", fmt.Sprintf("call %d returned a response but never wrote a request", i)})
 				continue
 			}
-			if r.serial < 1 || r.serial > len(srv.frames) {
-				res.fails = append(res.fails, ioFail{"c14-response-not-from-server", fmt.Sprintf("call %d: response carries serial %d, server sent %d frames", i, r.serial, len(srv.frames))})
+			f, okf := srv.frame(r.serial)
+			if !okf {
+				res.fails = append(res.fails, ioFail{"c14-response-not-from-server", fmt.Sprintf("call %d: response carries serial %d, server sent %d frames", i, r.serial, srv.nFrames())})
 				continue
 			}
-			f := srv.frames[r.serial-1]
 			if f.cid != w.cid {
 				res.fails = append(res.fails, ioFail{"c14-mismatched-id-delivered", fmt.Sprintf("call %d (correlation id %d) was given the frame #%d whose header id is %d", i, w.cid, r.serial, f.cid)})
 			}
